@@ -1,9 +1,10 @@
 #!/bin/sh
 # Runs the quick tier against every seeded change (and the hand-written ones) and prints one
 # line each. Breaking changes must report >= 1 violation class; the T* twins must report 0.
-cd /verif
+V="$(cd "$(dirname "$0")/.." && pwd)"
+cd "$V"
 for f in seeded/S*/patch.diff seeded/own/M*.diff seeded/own/T*.diff; do
     n=$(echo "$f" | sed 's#seeded/##; s#/patch.diff##; s#own/##; s#.diff##')
-    r=$(tools/try_patch.sh "/verif/$f" --tier quick 2>&1 | grep -E "check: C16|harness error" | sed 's/.*distinct inputs, //')
+    r=$(tools/try_patch.sh "$V/$f" --tier quick 2>&1 | grep -E "check: C16|harness error" | sed 's/.*distinct inputs, //')
     echo "$n: $r"
 done
